@@ -832,8 +832,9 @@ class ListBox(Widget, WidgetContainerMixin):
         if focus_widget is None:
             raise IndexError("Can't set focus, ListBox is empty")
 
-        self.set_focus_pending = coming_from, focus_widget, focus_pos
+        # (a position the walker rejects must not leave a pending request behind)
         self._body.set_focus(position)
+        self.set_focus_pending = coming_from, focus_widget, focus_pos
 
     def get_focus(self):
         """
@@ -1013,27 +1014,36 @@ class ListBox(Widget, WidgetContainerMixin):
             # do nothing
             return None
 
+        if _new_focus_widget is None:
+            # the list has been emptied since the request was made
+            return None
+
         # restore old focus temporarily
-        self._body.set_focus(focus_pos)
+        try:
+            self._body.set_focus(focus_pos)
+            middle, top, bottom = self.calculate_visible((maxcol, maxrow), focus)
+        except (IndexError, KeyError):
+            # the old focus position has been removed from the list since the request was made
+            middle = None
 
-        middle, top, bottom = self.calculate_visible((maxcol, maxrow), focus)
-        focus_offset, _focus_widget, focus_pos, focus_rows, _cursor = middle  # pylint: disable=unpacking-non-sequence
-        _trim_top, fill_above = top  # pylint: disable=unpacking-non-sequence
-        _trim_bottom, fill_below = bottom  # pylint: disable=unpacking-non-sequence
+        if middle is not None:
+            focus_offset, _focus_widget, focus_pos, focus_rows, _cursor = middle  # pylint: disable=unpacking-non-sequence
+            _trim_top, fill_above = top  # pylint: disable=unpacking-non-sequence
+            _trim_bottom, fill_below = bottom  # pylint: disable=unpacking-non-sequence
 
-        offset = focus_offset
-        for _widget, pos, rows in fill_above:
-            offset -= rows
-            if pos == position:
-                self.change_focus((maxcol, maxrow), pos, offset, "below")
-                return None
+            offset = focus_offset
+            for _widget, pos, rows in fill_above:
+                offset -= rows
+                if pos == position:
+                    self.change_focus((maxcol, maxrow), pos, offset, "below")
+                    return None
 
-        offset = focus_offset + focus_rows
-        for _widget, pos, rows in fill_below:
-            if pos == position:
-                self.change_focus((maxcol, maxrow), pos, offset, "above")
-                return None
-            offset += rows
+            offset = focus_offset + focus_rows
+            for _widget, pos, rows in fill_below:
+                if pos == position:
+                    self.change_focus((maxcol, maxrow), pos, offset, "above")
+                    return None
+                offset += rows
 
         # failed to find widget among visible widgets
         self._body.set_focus(position)
